@@ -31,6 +31,9 @@ func cmdDeterminism(ids []string) int {
 		if !ok {
 			die(exitUnwell, "unknown property %q", id)
 		}
+		if e := os.Getenv("VERIF_DET_ENGINE"); e != "" {
+			spec.Engine = e // the second engine of a property (props.go: Also)
+		}
 		if bins[spec.Engine] == "" {
 			b, err := build(spec.Engine, tmp)
 			if err != nil {
